@@ -24,7 +24,7 @@ P = {
          "Token sequences with two random separator assignments per gap (25 whitespace chars, block and line comments with arbitrary text) must build equal trees or fail alike; complete table of class-representative pairs x 30 separators x 2 contexts; all sequences up to length 4 tight vs commented; unterminated block comments rejected. Admissibility asserted with the reference tokenizer. Scale families (DESIGN §10.16): the same per-case check on programs, operands, literals, separators, histories and contexts of sizes 1..400 clustered around typical capacities (8, 16, 32, 64, 128, 256).",
          "D10: lone & and | are not tokens."),
  "C08": ("4 C08", "proptest programs with recording / failing user functions; libFuzzer in thorough; oracle: reference interpreter triple (result, final context, ordered call log)",
-         "Random effectful programs (assignments in operand positions, recording and failing functions, unknown names, k/0 with distinct k, eager if, no short-circuit) over varied contexts; result (exact names, messages and failing operands), final variables and call log with arguments must equal the reference. Scale families (DESIGN §10.16): the same per-case check on programs, operands, literals, separators, histories and contexts of sizes 1..400 clustered around typical capacities (8, 16, 32, 64, 128, 256).",
+         "Random effectful programs (assignments in operand positions, recording and failing functions, unknown names, k/0 with distinct k, eager if, no short-circuit) over varied contexts; result (exact names, messages and failing operands), final variables and call log with arguments must equal the reference, also through one typed string-level and one typed tree-level _mut entry point per program (exactly once through every entry point). Scale families (DESIGN §10.16): the same per-case check on programs, operands, literals, separators, histories and contexts of sizes 1..400 clustered around typical capacities (8, 16, 32, 64, 128, 256).",
          "User functions deterministic; their only effect is the harness-owned log."),
  "C09": ("4 C09", "complete configuration matrix enumeration + proptest over random programs whose names live in both namespaces; oracle: reference resolution rule / reference interpreter with recording functions",
          "65 names (49 builtins, 5 non-builtin names, 11 identifiers of 31..300 bytes) x 130 context configurations (switch, user function recording or itself failing with FunctionIdentifierNotFound, variable, clone / clone_from / clear_functions / clear / toggled twice / clearing while another copy is alive, both empty contexts) x 56 call and variable forms, all enumerated (counts in the evidence file); a many-functions family (1..129 context functions at once, some named like builtins; as built / clone / clear_functions / clear); callee, argument shape and error must match. Then random programs (nested and juxtaposed calls, assignments to variables named like functions, tuples, chains) over 10 shared names in random HashMapContexts (300 k quick / 6 M thorough), compared on result, call log and final variables. Scale families (DESIGN §10.16): the same per-case check on programs, operands, literals, separators, histories and contexts of sizes 1..400 clustered around typical capacities (8, 16, 32, 64, 128, 256).",
@@ -42,9 +42,9 @@ P = {
          "All 25.6 M sequences up to length 6 (quick) / 7 (thorough) over the base alphabet plus `true`, and planted defects in rendered and type-directed programs: unbalanced -> build error; balanced -> never an unmatched-brace error; missing operand / juxtaposition -> build error or wrong-arity node and never Ok in a generous context. Scale families (DESIGN §10.16): the same per-case check on programs, operands, literals, separators, histories and contexts of sizes 1..400 clustered around typical capacities (8, 16, 32, 64, 128, 256).",
          "D4 unclaimed."),
  "C14": ("4 C14", "proptest over well-formed ASTs; libFuzzer over token soups in thorough; oracle: occurrence list of the generating AST / reference parse, rename/eval commutation",
-         "The ten iterators against the occurrence list, overwrite-through-mutable-iterator exactness, unknown-identifier errors listed, injective renaming commutes with evaluation (result, calls, final context). Scale families (DESIGN §10.16): the same per-case check on programs, operands, literals, separators, histories and contexts of sizes 1..400 clustered around typical capacities (8, 16, 32, 64, 128, 256).",
+         "The ten iterators against the occurrence list, overwrite-through-mutable-iterator exactness, unknown-identifier errors listed, injective renaming commutes with evaluation (result, calls, final context); every program rendered spaced, without spaces and with non-ASCII comments between the tokens. Scale families (DESIGN §10.16): the same per-case check on programs, operands, literals, separators, histories and contexts of sizes 1..400 clustered around typical capacities (8, 16, 32, 64, 128, 256).",
          "The occurrence list is that of the reference parse of the source; a tree whose shape differs from it (C02/C05's business) is still held to the source's identifiers."),
- "C15": ("4 C15", "generated read-only programs evaluated concurrently (2..16 threads) vs sequential oracle; Send + Sync decided by the check's own need to type-check",
+ "C15": ("4 C15", "generated read-only programs evaluated concurrently (2..16 free-running threads; 16 / 48 / 64 threads held inside one user-function call by a harness-owned rendezvous; contexts built on different threads) vs sequential oracle; Send + Sync decided by the check's own need to type-check",
          "Sampled schedules only: the harness does not own the scheduler. The compile-time half (eight assert_send_sync lines plus code that really shares and moves the types) is decisive; the dynamic half samples staggered concurrent evaluation (incl. a contention batch: every builtin with 12 different arguments from staggered threads) of shared trees and contexts.",
          "No interleaving enumeration; loom/shuttle not applicable (no primitives to instrument)."),
  "C16": ("4 C16", "proptest round trips through serde's &str / borrowed-str deserializers, an exact in-memory serde data-model format, RON (vendored ron 0.8.1, the format of evalexpr's own serde tests) and serde_json (string and reader)",
